@@ -9,7 +9,7 @@ import ElaVerif.Model.WireDriver
   Manager: `ck` = `GetHeight()` of the checkpoint (height of its last save), the height-named files and
   the default file of the data directory, each holding a snapshot.
 
-    wcont <N> <k> <height>:<tx hex> …   →  dflt <h|none> coins <n> owned <m>
+    wcont <N> <k> <height>:<tx hex> …   →  dflt <h|none> rcoins <r> coins <n> owned <m>
 -/
 namespace ElaVerif.WalletCont
 open ElaVerif.Bytes ElaVerif.Wire ElaVerif.WireDriver ElaVerif.Tx
@@ -158,9 +158,9 @@ def stepWCont (args : List String) : String :=
     match n.toNat?, k.toNat?, entries.mapM parseEntry with
     | some n, some k, some es =>
       let m := interrupted (blocksOf n es) k
-      let from_ := (run .fresh ((blocksOf n es).take k)).dflt
-      let d := match from_ with | some (h, _) => toString h | none => "none"
-      s!"dflt {d} coins {m.live.coins.length} owned {m.live.coins.length + m.live.owners.length}"
+      let first := run .fresh ((blocksOf n es).take k)
+      let d := match first.dflt with | some (h, _) => toString h | none => "none"
+      s!"dflt {d} rcoins {(restart first).live.coins.length} coins {m.live.coins.length} owned {m.live.coins.length + m.live.owners.length}"
     | _, _, _ => "bad-op"
   | _ => "bad-op"
 
